@@ -19,7 +19,10 @@ lines.append("Each sub-agent saw only the text of one property and a scratch "
              "`tools/seed_eval.py` confirmed for each: demo passes on the "
              "clean tree, the patch applies, the 340 pinned tests still pass, "
              "the demo fails with the patch; then the quick check ran with "
-             "`VERIF_REPO=<patched worktree>`.\n")
+             "`VERIF_REPO=<patched worktree>`. Round 1 (S1-*) asked for subtle "
+             "changes; round 2 (S2-*) additionally required that the defect "
+             "only manifests beyond trivial scales (large arrays, many "
+             "chunks / shards, big payloads, long histories).\n")
 lines.append("| seeded change | breaks | what it needs to manifest | caught by"
              " | first violation reported |")
 lines.append("|---|---|---|---|---|")
@@ -36,6 +39,8 @@ for mp in sorted(glob.glob(os.path.join(V, "seeded", "*", "meta.json"))):
                       for r in m["checks_run"].values()
                       if r["first_violation"])
     first = first.replace("|", "/")
+    if m.get("history"):
+        caught += " - " + m["history"]
     lines.append("| `seeded/%s` | %s | %s | %s | %s |" % (
         name, m["property"], needs.replace("|", "/"), caught, first))
 lines.append("")
